@@ -7,6 +7,8 @@
 // invariant walked over all levels + a declarative sorted-sequence oracle.  Because the pre-state
 // is an arbitrary valid list of the bounded shape, one step is inductive.
 // MAX_LEVEL is shrunk 32 -> 4 by the group (towers higher than 4 are outside the claim).
+// Key type: u8 for the structural harnesses (stated instantiation), Vec<u8> (production) for the
+// `v_` harnesses and for the engine-level harnesses in ovl_zset_engine.rs.
 #![allow(dead_code, unused)]
 use super::*;
 use crate::verif_common::*;
@@ -15,7 +17,7 @@ use std::ptr::null_mut;
 
 type Node<K> = SkipListNode<K, f64>;
 /// largest chain the walker accepts (3 pre-state nodes + 1 inserted)
-const CAP: usize = 4;
+pub const CAP: usize = 4;
 
 // ---------------------------------------------------------------- stubs
 /// Level handed out by the `random_level` stub; the harness sets it (symbolic in 0..MAX_LEVEL or
@@ -43,6 +45,137 @@ fn set_level(l: usize) {
 /// cannot run under Kani).  ThreadRng is one Rc pointer; it is never dereferenced or dropped.
 fn fake_rng() -> Arc<RwLock<rand::rngs::ThreadRng>> {
     Arc::new(RwLock::new(unsafe { std::mem::transmute::<usize, rand::rngs::ThreadRng>(8usize) }))
+}
+
+// ---------------------------------------------------------------- key_index container model
+/// Model of `std::collections::HashMap<K, V>` for `SkipListInner::key_index` ONLY (the group
+/// substitutes the `use` line of skiplist.rs).  Fixed capacity, no heap, no reallocation, no
+/// element moves: the Vec-backed family model makes `push`/`remove` on a map that lives behind
+/// `Arc<RwLock<..>>` a symbolic-size realloc/memmove, which runs CBMC out of memory (DESIGN 1.2).
+/// API subset used by skiplist.rs: new, get, insert, remove, len, clear.  Semantics: a finite map;
+/// exceeding the capacity is reported (assert), never silently cut.
+pub const KI_CAP: usize = 4;
+pub struct KeyIndexModel<K, V> {
+    slots: [Option<(K, V)>; KI_CAP],
+}
+impl<K: Eq, V> KeyIndexModel<K, V> {
+    pub fn new() -> Self {
+        KeyIndexModel { slots: [const { None }; KI_CAP] }
+    }
+    pub fn len(&self) -> usize {
+        let mut n = 0;
+        let mut i = 0;
+        while i < KI_CAP {
+            if self.slots[i].is_some() {
+                n += 1;
+            }
+            i += 1;
+        }
+        n
+    }
+    pub fn is_empty(&self) -> bool {
+        self.len() == 0
+    }
+    pub fn clear(&mut self) {
+        let mut i = 0;
+        while i < KI_CAP {
+            self.slots[i] = None;
+            i += 1;
+        }
+    }
+    fn pos<Q: ?Sized + Eq>(&self, k: &Q) -> Option<usize>
+    where
+        K: std::borrow::Borrow<Q>,
+    {
+        let mut r = None;
+        let mut i = KI_CAP;
+        while i > 0 {
+            i -= 1;
+            if let Some((kk, _)) = &self.slots[i] {
+                if kk.borrow() == k {
+                    r = Some(i);
+                }
+            }
+        }
+        r
+    }
+    pub fn get<Q: ?Sized + Eq>(&self, k: &Q) -> Option<&V>
+    where
+        K: std::borrow::Borrow<Q>,
+    {
+        match self.pos(k) {
+            Some(i) => match &self.slots[i] {
+                Some((_, v)) => Some(v),
+                None => None,
+            },
+            None => None,
+        }
+    }
+    pub fn contains_key<Q: ?Sized + Eq>(&self, k: &Q) -> bool
+    where
+        K: std::borrow::Borrow<Q>,
+    {
+        self.pos(k).is_some()
+    }
+    pub fn insert(&mut self, k: K, v: V) -> Option<V> {
+        match self.pos(&k) {
+            Some(i) => match self.slots[i].replace((k, v)) {
+                Some((_, old)) => Some(old),
+                None => None,
+            },
+            None => {
+                let mut free = None;
+                let mut i = KI_CAP;
+                while i > 0 {
+                    i -= 1;
+                    if self.slots[i].is_none() {
+                        free = Some(i);
+                    }
+                }
+                match free {
+                    Some(i) => self.slots[i] = Some((k, v)),
+                    None => assert!(false, "key_index model capacity exceeded (outside the bound of this harness)"),
+                }
+                None
+            }
+        }
+    }
+    pub fn remove<Q: ?Sized + Eq>(&mut self, k: &Q) -> Option<V>
+    where
+        K: std::borrow::Borrow<Q>,
+    {
+        match self.pos(k) {
+            Some(i) => match self.slots[i].take() {
+                Some((_, v)) => Some(v),
+                None => None,
+            },
+            None => None,
+        }
+    }
+}
+
+// ---------------------------------------------------------------- key types
+/// members are one symbolic byte; as `u8` itself or as the production key type `Vec<u8>` of length 1
+pub trait KB: Clone + Ord + Debug + std::hash::Hash + Eq {
+    fn mk(b: u8) -> Self;
+    fn kb(&self) -> u8;
+}
+impl KB for u8 {
+    fn mk(b: u8) -> Self {
+        b
+    }
+    fn kb(&self) -> u8 {
+        *self
+    }
+}
+impl KB for Vec<u8> {
+    fn mk(b: u8) -> Self {
+        vec![b]
+    }
+    fn kb(&self) -> u8 {
+        assert!(self.len() == 1, "member bytes changed length");
+        self[0]
+    }
 }
 
 // ---------------------------------------------------------------- pre-state builder
@@ -126,12 +259,18 @@ fn any_sorted8<const N: usize>() -> ([u8; N], [f64; N]) {
     }
     (k, s)
 }
+fn any_list<K: KB, const N: usize>(h: [usize; N]) -> (SkipList<K, f64>, [u8; N], [f64; N]) {
+    let (k, s) = any_sorted8::<N>();
+    let l = mk_list(h, k.map(|b| K::mk(b)), s, K::mk(0));
+    (l, k, s)
+}
 
 // ---------------------------------------------------------------- structural invariant
-/// The level-0 chain as found by the walker (node pointers, in order).
-pub struct Snap<K> {
+/// The level-0 chain as found by the walker: members (one byte each) and scores, in order.
+pub struct Snap {
     pub n: usize,
-    pub p: [*mut Node<K>; CAP],
+    pub k: [u8; CAP],
+    pub s: [f64; CAP],
 }
 
 /// direct access to the inner data (the walker is an observer; it does not go through the lock)
@@ -156,10 +295,7 @@ unsafe fn inner_of<K>(l: &SkipList<K, f64>) -> &mut SkipListInner<K, f64> {
 ///  * `memory_usage` == head + sum of node sizes.
 /// All dereferences are checked by Kani's memory-safety checks (dangling / freed nodes are flagged).
 /// Loops have concrete trip counts (CAP, MAX_LEVEL) to keep symbolic execution small.
-fn check_inv<K>(l: &SkipList<K, f64>) -> Snap<K>
-where
-    K: Clone + Ord + Debug + std::hash::Hash + Eq,
-{
+fn check_inv<K: KB>(l: &SkipList<K, f64>) -> Snap {
     unsafe {
         let inner = inner_of(l);
         let head = inner.head;
@@ -180,21 +316,22 @@ where
             step += 1;
         }
         assert!(cur.is_none(), "inv: level-0 chain longer than the bound (duplicate node or cycle)");
+        let mut sn = Snap { n: n0, k: [0; CAP], s: [0.0; CAP] };
         let mut mem = node_size::<K>(MAX_LEVEL);
         let mut i = 0;
         while i < CAP {
             if i < n0 {
                 let a = p0[i];
-                assert!((*a).value == (*a).value, "inv: NaN score stored");
+                sn.k[i] = (*a).key.kb();
+                sn.s[i] = (*a).value;
+                assert!(sn.s[i] == sn.s[i], "inv: NaN score stored");
                 assert!(hl[i] >= 1 && hl[i] <= MAX_LEVEL, "inv: tower height in 1..=MAX_LEVEL");
                 mem += node_size::<K>(hl[i]);
-                if i + 1 < n0 {
-                    let b = p0[i + 1];
-                    let ordered = (*a).value < (*b).value || ((*a).value == (*b).value && (*a).key < (*b).key);
-                    assert!(ordered, "inv: level-0 chain strictly increasing by (score, member)");
+                if i > 0 {
+                    assert!(lt8(sn.s[i - 1], sn.k[i - 1], sn.s[i], sn.k[i]), "inv: level-0 chain strictly increasing by (score, member)");
                 }
                 match inner.key_index.get(&(*a).key) {
-                    Some(v) => assert!(v.to_bits() == (*a).value.to_bits(), "inv: key_index score == node score"),
+                    Some(v) => assert!(v.to_bits() == sn.s[i].to_bits(), "inv: key_index score == node score"),
                     None => assert!(false, "inv: chain member missing from key_index"),
                 }
             }
@@ -204,7 +341,7 @@ where
         assert!(inner.key_index.len() == n0, "inv: key_index.len() == level-0 chain length");
         assert!(inner.memory_usage == mem, "inv: memory_usage == head + sum of node sizes");
         assert!(inner.level < MAX_LEVEL, "inv: level < MAX_LEVEL");
-        // higher levels: successor of node i on level lv == next node with a tower higher than lv
+        // higher levels: successor of node j on level lv == next node with a tower higher than lv
         let mut lv = 1;
         while lv < MAX_LEVEL {
             let mut nxt: Option<*mut Node<K>> = None;
@@ -225,50 +362,84 @@ where
             }
             lv += 1;
         }
-        Snap { n: n0, p: p0 }
+        sn
     }
 }
 
 /// position of member `key` in the snapshot
-fn snap_find8(sn: &Snap<u8>, key: u8) -> Option<usize> {
+pub fn snap_find(sn: &Snap, key: u8) -> Option<usize> {
     let mut r = None;
     let mut i = CAP;
     while i > 0 {
         i -= 1;
-        if i < sn.n && unsafe { (*sn.p[i]).key } == key {
+        if i < sn.n && sn.k[i] == key {
             r = Some(i);
         }
     }
     r
 }
-fn snap_has8(sn: &Snap<u8>, key: u8, score: f64) -> bool {
-    match snap_find8(sn, key) {
-        Some(i) => unsafe { (*sn.p[i]).value.to_bits() == score.to_bits() },
+pub fn snap_has(sn: &Snap, key: u8, score: f64) -> bool {
+    match snap_find(sn, key) {
+        Some(i) => sn.s[i].to_bits() == score.to_bits(),
         None => false,
     }
 }
 fn find8<const N: usize>(k: &[u8; N], key: u8) -> Option<usize> {
-    let mut i = 0;
-    while i < N {
+    let mut r = None;
+    let mut i = N;
+    while i > 0 {
+        i -= 1;
         if k[i] == key {
-            return Some(i);
+            r = Some(i);
         }
-        i += 1;
     }
-    None
+    r
 }
 
-// ---------------------------------------------------------------- harness bodies (K = u8)
+// ---------------------------------------------------------------- pub API for the engine-level overlay
+// (the overlay module itself is private to `skiplist`; inherent methods are visible crate-wide)
+impl<K, V> SkipList<K, V>
+where
+    K: Clone + Ord + Debug + std::hash::Hash + Eq,
+    V: Clone + PartialOrd + Debug,
+{
+    /// stub target for `random_level`
+    pub fn verif_rl(&self) -> usize {
+        unsafe { NEXT_LEVEL }
+    }
+}
+impl SkipList<Vec<u8>, f64> {
+    pub fn verif_set_level_any() -> usize {
+        set_level_any()
+    }
+    pub fn verif_set_level(l: usize) {
+        set_level(l)
+    }
+    /// arbitrary valid list of the given tower shape; returns the members (one byte each) and scores in order
+    pub fn verif_any<const N: usize>(h: [usize; N]) -> (Self, [u8; N], [f64; N]) {
+        any_list::<Vec<u8>, N>(h)
+    }
+    /// assert the structural invariant, return the level-0 chain
+    pub fn verif_check(&self) -> (usize, [u8; CAP], [f64; CAP]) {
+        let sn = check_inv(self);
+        (sn.n, sn.k, sn.s)
+    }
+}
+/// stand-in for `rand::thread_rng()` (SkipList::new() is reachable from zadd/zincrby on an absent key)
+pub fn fake_thread_rng() -> rand::rngs::ThreadRng {
+    unsafe { std::mem::transmute::<usize, rand::rngs::ThreadRng>(8usize) }
+}
+
+// ---------------------------------------------------------------- harness bodies
 
 /// the builder itself yields a list that satisfies the invariant (validates builder + walker; vacuity witness)
-fn body_build<const N: usize>(h: [usize; N]) {
-    let (k, s) = any_sorted8::<N>();
-    let l = mk_list(h, k, s, 0u8);
+fn body_build<K: KB, const N: usize>(h: [usize; N]) {
+    let (l, k, s) = any_list::<K, N>(h);
     let sn = check_inv(&l);
     assert!(sn.n == N);
     let mut i = 0;
     while i < N {
-        assert!(snap_find8(&sn, k[i]) == Some(i));
+        assert!(snap_find(&sn, k[i]) == Some(i) && sn.s[i].to_bits() == s[i].to_bits());
         i += 1;
     }
     kani::cover!(true, "pre-state of this shape exists");
@@ -284,9 +455,8 @@ enum Who {
 }
 
 /// ONE real `insert(key, score)`: new member or re-score of an existing one to an arbitrary position.
-fn body_insert<const N: usize>(h: [usize; N], who: Who, new_level: Option<usize>) {
-    let (k, s) = any_sorted8::<N>();
-    let l = mk_list(h, k, s, 0u8);
+fn body_insert<K: KB, const N: usize>(h: [usize; N], who: Who, new_level: Option<usize>) {
+    let (l, k, s) = any_list::<K, N>(h);
     let key: u8 = kani::any();
     let score = any_score();
     let pos = find8(&k, key);
@@ -301,7 +471,7 @@ fn body_insert<const N: usize>(h: [usize; N], who: Who, new_level: Option<usize>
             set_level_any();
         }
     }
-    let r = l.insert(key, score);
+    let r = l.insert(K::mk(key), score);
     let sn = check_inv(&l);
     match pos {
         Some(i) => {
@@ -313,33 +483,33 @@ fn body_insert<const N: usize>(h: [usize; N], who: Who, new_level: Option<usize>
             assert!(sn.n == N + 1, "insert of a new member adds exactly one");
         }
     }
-    assert!(snap_has8(&sn, key, score), "inserted member present once with its latest score");
+    assert!(snap_has(&sn, key, score), "inserted member present once with its latest score");
     let mut i = 0;
     while i < N {
         if k[i] != key {
-            assert!(snap_has8(&sn, k[i], s[i]), "other members keep their scores");
+            assert!(snap_has(&sn, k[i], s[i]), "other members keep their scores");
         }
         i += 1;
     }
-    // witnesses: moves across neighbours, equal scores, signed zeros, infinities
-    if N >= 2 {
-        kani::cover!(pos == Some(0) && snap_find8(&sn, key) == Some(N - 1), "first member re-scored to the last position");
-        kani::cover!(pos == Some(N - 1) && snap_find8(&sn, key) == Some(0), "last member re-scored to the first position");
-        kani::cover!(pos.is_none() && score == s[0] && snap_find8(&sn, key) == Some(1), "new member with a score equal to a neighbour's");
+    // witnesses (few: every cover is one more solver round)
+    if N >= 2 && who != Who::New {
+        kani::cover!(pos == Some(0) && snap_find(&sn, key) == Some(N - 1), "first member re-scored to the last position");
     }
-    kani::cover!(score == f64::INFINITY, "+inf");
-    kani::cover!(score == f64::NEG_INFINITY, "-inf");
-    kani::cover!(score.to_bits() == (-0.0f64).to_bits(), "-0.0");
+    if N >= 1 && who != Who::Existing {
+        kani::cover!(pos.is_none() && score == s[0] && snap_find(&sn, key) == Some(0), "new member with a score equal to the first member's, ordered by member");
+    }
+    if N == 0 {
+        kani::cover!(score.to_bits() == (-0.0f64).to_bits(), "-0.0 into the empty list");
+    }
     std::mem::forget(l);
 }
 
 /// ONE real `remove(key)`: any member (first / middle / last) or an absent one.
-fn body_remove<const N: usize>(h: [usize; N]) {
-    let (k, s) = any_sorted8::<N>();
-    let l = mk_list(h, k, s, 0u8);
+fn body_remove<K: KB, const N: usize>(h: [usize; N]) {
+    let (l, k, s) = any_list::<K, N>(h);
     let key: u8 = kani::any();
     let pos = find8(&k, key);
-    let r = l.remove(&key);
+    let r = l.remove(&K::mk(key));
     let sn = check_inv(&l);
     match pos {
         Some(i) => {
@@ -351,35 +521,28 @@ fn body_remove<const N: usize>(h: [usize; N]) {
             assert!(sn.n == N, "remove of an absent member changes nothing");
         }
     }
-    assert!(snap_find8(&sn, key).is_none(), "removed member is gone");
+    assert!(snap_find(&sn, key).is_none(), "removed member is gone");
     let mut i = 0;
     while i < N {
         if k[i] != key {
-            assert!(snap_has8(&sn, k[i], s[i]), "other members keep their scores");
+            assert!(snap_has(&sn, k[i], s[i]), "other members keep their scores");
         }
         i += 1;
     }
     if N >= 1 {
-        kani::cover!(pos == Some(0), "first removed");
-        kani::cover!(pos == Some(N - 1), "last removed");
+        kani::cover!(pos == Some(N / 2), "middle (or only) member removed");
     }
     kani::cover!(pos.is_none(), "absent member");
     std::mem::forget(l);
 }
 
-/// rank of (score,key) in the model = number of pre-state members strictly below
-fn model_rank<const N: usize>(k: &[u8; N], key: u8) -> Option<usize> {
-    find8(k, key)
-}
-
-/// read-only queries by member: get_score, get_rank (full-width key)
-fn body_rank<const N: usize>(h: [usize; N]) {
-    let (k, s) = any_sorted8::<N>();
-    let l = mk_list(h, k, s, 0u8);
+/// read-only queries by member: get_score, get_rank (full-width key), len, is_empty
+fn body_rank<K: KB, const N: usize>(h: [usize; N]) {
+    let (l, k, s) = any_list::<K, N>(h);
     let key: u8 = kani::any();
     let pos = find8(&k, key);
-    let sc = l.get_score(&key);
-    let rk = l.get_rank(&key);
+    let sc = l.get_score(&K::mk(key));
+    let rk = l.get_rank(&K::mk(key));
     match pos {
         Some(i) => {
             assert!(sc.map(|x| x.to_bits()) == Some(s[i].to_bits()), "get_score of a member");
@@ -401,14 +564,13 @@ fn body_rank<const N: usize>(h: [usize; N]) {
 }
 
 /// read-only queries by rank: get_by_rank(r), range_by_rank(a, b) with full-width usize arguments
-fn body_by_rank<const N: usize>(h: [usize; N]) {
-    let (k, s) = any_sorted8::<N>();
-    let l = mk_list(h, k, s, 0u8);
+fn body_by_rank<K: KB, const N: usize>(h: [usize; N]) {
+    let (l, k, s) = any_list::<K, N>(h);
     let r: usize = kani::any();
-    let g = l.get_by_rank(r);
+    let g = std::mem::ManuallyDrop::new(l.get_by_rank(r));
     if r < N {
-        match g {
-            Some((gk, gs)) => assert!(gk == k[r] && gs.to_bits() == s[r].to_bits(), "get_by_rank(r) is the r-th member"),
+        match &*g {
+            Some((gk, gs)) => assert!(gk.kb() == k[r] && gs.to_bits() == s[r].to_bits(), "get_by_rank(r) is the r-th member"),
             None => assert!(false, "get_by_rank(r) for r < len must be Some"),
         }
     } else {
@@ -416,52 +578,64 @@ fn body_by_rank<const N: usize>(h: [usize; N]) {
     }
     let a: usize = kani::any();
     let b: usize = kani::any();
-    let rr = l.range_by_rank(a, b);
+    let rr = std::mem::ManuallyDrop::new(l.range_by_rank(a, b));
     // model: ranks a..=min(b, N-1) if a < N and a <= b, else nothing
     let exp_n = if a < N && a <= b { (if b < N { b } else { N - 1 }) - a + 1 } else { 0 };
     assert!(rr.items.len() == exp_n, "range_by_rank cardinality");
     let mut i = 0;
-    while i < rr.items.len() {
-        assert!(rr.items[i].0 == k[a + i] && rr.items[i].1.to_bits() == s[a + i].to_bits(), "range_by_rank items in order");
+    while i < N {
+        if i < exp_n {
+            assert!(rr.items[i].0.kb() == k[a + i] && rr.items[i].1.to_bits() == s[a + i].to_bits(), "range_by_rank items in order");
+        }
         i += 1;
     }
-    kani::cover!(exp_n == N, "whole list");
+    kani::cover!(exp_n == N && b == usize::MAX, "whole list, stop = usize::MAX");
     kani::cover!(a > b, "reversed bounds");
-    kani::cover!(b == usize::MAX, "stop = usize::MAX");
     let sn = check_inv(&l);
     assert!(sn.n == N, "queries do not change the list");
-    std::mem::forget(rr);
     std::mem::forget(l);
 }
 
 /// read-only query by score: range_by_score(min, max), full-width non-NaN f64 bounds (incl. +-inf, +-0.0, min > max)
-fn body_by_score<const N: usize>(h: [usize; N]) {
-    let (k, s) = any_sorted8::<N>();
-    let l = mk_list(h, k, s, 0u8);
+fn body_by_score<K: KB, const N: usize>(h: [usize; N]) {
+    let (l, k, s) = any_list::<K, N>(h);
     let lo = any_score();
     let hi = any_score();
-    let rr = l.range_by_score(lo, hi);
+    let rr = std::mem::ManuallyDrop::new(l.range_by_score(lo, hi));
     // model: the members with lo <= score <= hi, in chain order
     let mut exp_n = 0;
     let mut i = 0;
     while i < N {
         if lo <= s[i] && s[i] <= hi {
             assert!(exp_n < rr.items.len(), "range_by_score misses a member inside the bounds");
-            assert!(rr.items[exp_n].0 == k[i] && rr.items[exp_n].1.to_bits() == s[i].to_bits(), "range_by_score items in order");
+            assert!(rr.items[exp_n].0.kb() == k[i] && rr.items[exp_n].1.to_bits() == s[i].to_bits(), "range_by_score items in order");
             exp_n += 1;
         }
         i += 1;
     }
     assert!(rr.items.len() == exp_n, "range_by_score returns nothing outside the bounds");
-    kani::cover!(exp_n == N, "whole list");
+    kani::cover!(exp_n == N && lo == f64::NEG_INFINITY && hi == f64::INFINITY, "whole list, -inf..+inf");
     kani::cover!(lo > hi, "reversed bounds");
-    kani::cover!(lo == f64::NEG_INFINITY && hi == f64::INFINITY, "-inf..+inf");
     if N >= 2 {
         kani::cover!(exp_n == 1 && lo == hi, "point query");
     }
     let sn = check_inv(&l);
     assert!(sn.n == N, "queries do not change the list");
-    std::mem::forget(rr);
+    std::mem::forget(l);
+}
+
+/// Consequence of a stored NaN at the skip-list level (documents why NaN must be refused before it
+/// reaches the list): insert(key, NaN) followed by remove(key) leaves the node in the chain while
+/// the index forgets it (`(*target).value == *score` never holds for NaN).
+fn body_nan_consequence<K: KB>() {
+    let (l, k, s) = any_list::<K, 1>([1]);
+    let key: u8 = kani::any();
+    kani::assume(key != k[0]);
+    set_level(0);
+    l.insert(K::mk(key), f64::NAN);
+    let r = l.remove(&K::mk(key));
+    let sn = check_inv(&l);
+    assert!(snap_find(&sn, key).is_none(), "removed member is gone");
     std::mem::forget(l);
 }
 
@@ -477,64 +651,15 @@ macro_rules! skl {
     };
 }
 
-skl!(c04_build_h213, 5, body_build([2, 1, 3]));
-skl!(c04_insert_h121, 5, body_insert([1, 2, 1], Who::Any, None));
-skl!(c04_remove_h213, 5, body_remove([2, 1, 3]));
-skl!(c04_rank_h213, 7, body_rank([2, 1, 3]));
-skl!(c04_byrank_h213, 7, body_by_rank([2, 1, 3]));
-skl!(c04_byscore_h213, 7, body_by_score([2, 1, 3]));
+skl!(c04_build_h213, 5, body_build::<u8, 3>([2, 1, 3]));
+skl!(c04_insert_h121, 5, body_insert::<u8, 3>([1, 2, 1], Who::Any, None));
+skl!(c04_remove_h213, 5, body_remove::<u8, 3>([2, 1, 3]));
+skl!(c04_rank_h213, 5, body_rank::<u8, 3>([2, 1, 3]));
+skl!(c04_byrank_h213, 5, body_by_rank::<u8, 3>([2, 1, 3]));
+skl!(c04_byscore_h213, 5, body_by_score::<u8, 3>([2, 1, 3]));
 
-// ---------------------------------------------------------------- experiments (not registered)
-fn conc_sorted8<const N: usize>() -> ([u8; N], [f64; N]) {
-    let mut k = [0u8; N];
-    let mut s = [0.0f64; N];
-    let mut i = 0;
-    while i < N {
-        k[i] = (i + 1) as u8;
-        s[i] = any_score();
-        i += 1;
-    }
-    let mut i = 0;
-    while i + 1 < N {
-        kani::assume(lt8(s[i], k[i], s[i + 1], k[i + 1]));
-        i += 1;
-    }
-    (k, s)
-}
-fn body_remove_x<const N: usize>(h: [usize; N], conc: bool, at: Option<usize>) {
-    let (k, s) = if conc { conc_sorted8::<N>() } else { any_sorted8::<N>() };
-    let l = mk_list(h, k, s, 0u8);
-    let key: u8 = match at { Some(j) => k[j], None => kani::any() };
-    let pos = find8(&k, key);
-    let r = l.remove(&key);
-    let sn = check_inv(&l);
-    match pos {
-        Some(i) => {
-            assert!(r.map(|x| x.to_bits()) == Some(s[i].to_bits()), "remove returns the member's score");
-            assert!(sn.n == N - 1, "remove takes exactly one member out");
-        }
-        None => {
-            assert!(r.is_none(), "remove of an absent member returns None");
-            assert!(sn.n == N, "remove of an absent member changes nothing");
-        }
-    }
-    assert!(snap_find8(&sn, key).is_none(), "removed member is gone");
-    let mut i = 0;
-    while i < N {
-        if k[i] != key {
-            assert!(snap_has8(&sn, k[i], s[i]), "other members keep their scores");
-        }
-        i += 1;
-    }
-    kani::cover!(true, "reached");
-    std::mem::forget(l);
-}
-skl!(x_remove_a, 5, body_remove_x([2, 1, 3], false, None));
-skl!(x_remove_b, 5, body_remove_x([2, 1, 3], true, None));
-skl!(x_remove_c, 5, body_remove_x([2, 1, 3], false, Some(1)));
-#[kani::proof]
-#[kani::unwind(5)]
-#[kani::solver(kissat)]
-fn x_remove_d() {
-    body_remove_x([2, 1, 3], false, None);
-}
+// experiments
+skl!(x_ins_a, 5, body_insert::<u8, 3>([1, 2, 1], Who::Any, Some(1)));
+skl!(x_ins_b, 5, body_insert::<u8, 3>([1, 2, 1], Who::New, None));
+skl!(x_ins_c, 5, body_insert::<u8, 2>([1, 2], Who::Any, None));
+skl!(x_rem_v, 5, body_remove::<Vec<u8>, 2>([2, 1]));
